@@ -292,6 +292,12 @@ func (rep *CheckReport) replayAll(o *checkOpts) {
 			b, _ := json.MarshalIndent(rf, "", " ")
 			os.WriteFile(path, b, 0o644)
 			outcome := runReplayBinary(bin, o.repo, g.spec.PkgDir, v.Harness, path)
+			// harnesses whose outcome depends on Go's randomised map iteration order are replayed several times
+			if hd := g.P.harness[v.Harness]; hd != nil && !reproduced(v, outcome) {
+				for n := optInt(hd.Opts, o.tier, "replays", 1); n > 1 && !reproduced(v, outcome); n-- {
+					outcome = runReplayBinary(bin, o.repo, g.spec.PkgDir, v.Harness, path)
+				}
+			}
 			rf.Outcome = outcome
 			b, _ = json.MarshalIndent(rf, "", " ")
 			os.WriteFile(path, b, 0o644)
